@@ -8,7 +8,7 @@ C06_REASONS = {
 }
 
 MC_INV = ["INVARIANTS MonOK QuiesceOK WedgeFree PendingExact CapsOK LimExact", "VIEW View", "CHECK_DEADLOCK FALSE"]
-BASE = {"Peers": {"p1", "p2"}, "AddrsOf": "<- AddrsOne", "Fixed": "<- NoFixed"}
+BASE = {"Peers": {"p1", "p2"}, "AddrsOf": "<- AddrsOne", "Fixed": "<- FixedNow"}
 
 
 def mc_runs(ctx, which):
@@ -210,7 +210,7 @@ def selftest(ctx, pid):
         ("limit-off-by-one", "Full(s, max) == max # NoLimit /\\ Cardinality(s) >= max", "Full(s, max) == max # NoLimit /\\ Cardinality(s) > max"),
         ("forget-pending-remove-on-open-failure", "     /\\ pend' = pend \\ {c}\n     /\\ tx' = [tx EXCEPT ![c] = \"failed\"]\n     /\\ UNCHANGED <<cpeer, cdir, caddrs, limIn, limOut, next, known, kf>>\n     /\\ Handle([a |-> \"open_fail\"", "     /\\ pend' = pend\n     /\\ tx' = [tx EXCEPT ![c] = \"failed\"]\n     /\\ UNCHANGED <<cpeer, cdir, caddrs, limIn, limOut, next, known, kf>>\n     /\\ Handle([a |-> \"open_fail\""),
         ("third-connection-accepted", "  ELSE IF s.k = \"conn\" THEN [acc |-> FALSE, st |-> s, cancel |-> None]", "  ELSE IF s.k = \"conn\" THEN [acc |-> TRUE, st |-> s, cancel |-> None]"),
-        ("dial-failure-not-reported", "             /\\ Handle(stim, <<>>, <<[k |-> \"dial_failure\", cid |-> c, addrs |-> caddrs[c]]>>, \"none\")", "             /\\ Handle(stim, <<>>, <<>>, \"none\")"),
+        ("dial-failure-not-reported", "             /\\ Handle(stim, <<>>, <<[k |-> \"dial_failure\", cid |-> c, addrs |-> caddrs[c]],", "             /\\ Handle(stim, <<>>, <<"),
     ]
     src = open(os.path.join(SPEC, "ConnMgrMC.tla")).read()
     for name, a, b in negs:
